@@ -349,4 +349,329 @@ theorem updateTask_refines (env : Env) (fail : List String) (w : World) (c : Cat
         rw [hupd, hmt]
         exact updateCommit_refines env fail w c id r orig h ho
 
+/-! ### template update -/
+
+/-- One successful iteration of the forward loop on an existing task. -/
+theorem retargetOne_step (env : Env) (fail : List String) (oi os ni ns : String) (w : World) (k : String) (t : Task)
+    (ht : w.store.tasks k = some t) (hok : (retargetOne env fail oi os ni ns w k).2 = true) :
+    (retargetOne env fail oi os ni ns w k).1.view =
+      { tasks := fun i => if i = k then some (retarget env os ni ns t) else w.store.tasks i,
+        tmpls := w.store.tmpls,
+        assoc := fun m j => if oi ≠ ni ∧ m = ni ∧ j = k then true else w.store.assoc m j,
+        exec := fun i => if i = k ∧ t.enabled = true then true else w.exec i } ∧
+    (t.enabled = true → startOK env fail k (retarget env os ni ns t) = true) := by
+  unfold retargetOne at hok ⊢
+  simp only [ht] at hok ⊢
+  have hsome : ((if oi ≠ ni then associate w ni k else w).store.tasks k).isSome = true := by
+    split <;> simp [associate, Store.setAssoc, ht]
+  rw [reloadTask_ok] at hok
+  rw [note_view, reloadTask_view _ _ _ _ _ hsome]
+  have hen : (retarget env os ni ns t).enabled = t.enabled := rfl
+  have hstart : t.enabled = true → startOK env fail k (retarget env os ni ns t) = true := by
+    intro he; rw [hen, he] at hok; simpa using hok
+  refine ⟨?_, hstart⟩
+  rw [hen]
+  by_cases hne : oi ≠ ni
+  · rw [if_pos hne]
+    cases he : t.enabled
+    · simp only [Bool.false_eq_true, if_false]
+      apply View.ext' <;> simp [View.put, View.setAssoc, associate_view, hne] <;> (funext m j; grind)
+    · simp only [if_true, hstart he]
+      apply View.ext' <;> simp [View.put, View.setAssoc, View.setExec, associate_view, hne] <;> (funext i; grind)
+  · rw [if_neg hne]
+    cases he : t.enabled
+    · simp only [Bool.false_eq_true, if_false]
+      apply View.ext' <;> simp [View.put, hne]
+    · simp only [if_true, hstart he]
+      apply View.ext' <;> simp [View.put, View.setExec, hne] <;> (funext i; grind)
+
+/-- The forward loop, when it completes, on a list of existing tasks. -/
+theorem updateAll_view (env : Env) (fail : List String) (oi os ni ns : String) (l done : List String) (w : World)
+    (hok : (updateAll env fail oi os ni ns w done l).2 = true) (hsome : ∀ k ∈ l, (w.store.tasks k).isSome = true) :
+    (updateAll env fail oi os ni ns w done l).1.store.tmpls = w.store.tmpls ∧
+    (∀ m j, (updateAll env fail oi os ni ns w done l).1.store.assoc m j =
+      if oi ≠ ni ∧ m = ni ∧ j ∈ l then true else w.store.assoc m j) ∧
+    (∀ i, (updateAll env fail oi os ni ns w done l).1.exec i =
+      if i ∈ l ∧ (∃ t, w.store.tasks i = some t ∧ t.enabled = true) then true else w.exec i) ∧
+    (∀ k ∈ l, ∀ t, w.store.tasks k = some t → t.enabled = true → startOK env fail k (retarget env os ni ns t) = true) := by
+  induction l generalizing w done with
+  | nil => simp [updateAll]
+  | cons k rest ih =>
+    unfold updateAll at hok ⊢
+    by_cases hs : (retargetOne env fail oi os ni ns w k).2 = true
+    · rw [if_pos hs] at hok ⊢
+      have hk := hsome k (List.mem_cons_self ..)
+      obtain ⟨t, ht⟩ := Option.isSome_iff_exists.mp hk
+      obtain ⟨hv, hst⟩ := retargetOne_step env fail oi os ni ns w k t ht hs
+      have hv1 := congrArg View.tasks hv
+      have hv2 := congrArg View.tmpls hv
+      have hv3 := congrArg View.assoc hv
+      have hv4 := congrArg View.exec hv
+      simp only [view_tasks, view_tmpls, view_assoc, view_exec] at hv1 hv2 hv3 hv4
+      have hsome' : ∀ k' ∈ rest, ((retargetOne env fail oi os ni ns w k).1.store.tasks k').isSome = true := by
+        intro k' hk'
+        rw [hv1]
+        by_cases e : k' = k
+        · simp [e]
+        · simp [e]; exact hsome k' (List.mem_cons_of_mem _ hk')
+      obtain ⟨i1, i2, i3, i4⟩ := ih (done ++ [k]) (retargetOne env fail oi os ni ns w k).1 hok hsome'
+      refine ⟨by rw [i1, hv2], fun m j => ?_, fun i => ?_, fun k' hk' t' ht' he' => ?_⟩
+      · rw [i2, hv3]; simp only [List.mem_cons]; grind
+      · rw [i3, hv1, hv4]; simp only [List.mem_cons]
+        by_cases e : i = k
+        · subst e
+          have hen : (retarget env os ni ns t).enabled = t.enabled := rfl
+          cases he : t.enabled <;> simp [ht, he, hen]
+        · simp [e]
+      · rcases List.mem_cons.mp hk' with e | hin
+        · subst e; rw [ht] at ht'; cases ht'; exact hst he'
+        · by_cases e : k' = k
+          · subst e; rw [ht] at ht'; cases ht'; exact hst he'
+          · exact i4 k' hin t' (by rw [hv1]; simp [e]; exact ht') he'
+    · rw [if_neg hs] at hok; cases hok
+
+theorem storeTemplate_view (w : World) (id nid ns : String) :
+    (storeTemplate w id nid ns).1.view =
+      if id ≠ nid then (if (w.store.tmpls nid).isSome then w.view else (w.view.putTmpl nid ns).delTmpl id)
+      else (if (w.store.tmpls id).isSome then w.view.putTmpl id ns else w.view) := by
+  unfold storeTemplate
+  split
+  · cases hx : w.store.tmpls nid <;> simp_all [tmplCreate_ok, tmplCreate_view]
+  · simp [tmplReplace_view]
+
+theorem storeTemplate_ok (w : World) (id nid ns : String) :
+    (storeTemplate w id nid ns).2 = if id ≠ nid then !(w.store.tmpls nid).isSome else (w.store.tmpls id).isSome := by
+  unfold storeTemplate
+  split
+  · cases hx : w.store.tmpls nid <;> simp_all [tmplCreate_ok]
+  · simp [tmplReplace_ok]
+
+/-- An accepted template update shows the spec's catalogue. -/
+theorem updateTemplate_refines (env : Env) (fail : List String) (w : World) (c : Cat) (id newId script : String)
+    (h : DInv w.view c) (hdom : WDom w) (hid : id ≠ "")
+    (hnf : (updateTemplate env fail w id newId script).2 ≠ .fail) :
+    DInv (updateTemplate env fail w id newId script).1.view
+      (specStep env fail c (.tupdate id newId script) (updateTemplate env fail w id newId script).2) := by
+  have htasks : w.store.tasks = c.tasks := h.tasks
+  have htmpls : w.store.tmpls = c.tmpls := h.tmpls
+  cases hr : (updateTemplate env fail w id newId script).2 with
+  | fail => exact absurd hr hnf
+  | bad =>
+    rw [updateTemplate_rejected env fail w id newId script (Or.inl hr)]
+    simp only [specStep]; rw [if_neg (by decide)]; exact h
+  | nf =>
+    rw [updateTemplate_rejected env fail w id newId script (Or.inr hr)]
+    simp only [specStep]; rw [if_neg (by decide)]; exact h
+  | ok =>
+    simp only [specStep, if_true]
+    cases hos : w.store.tmpls id with
+    | none =>
+      exfalso
+      unfold updateTemplate at hr
+      simp only [hos] at hr
+      cases hr
+    | some os =>
+      have hcos : c.tmpls id = some os := by rw [← htmpls]; exact hos
+      have htk := updateTemplate_accepted_tasks env fail w id newId script os hos hid hdom h.assoc hr
+      -- open the handler
+      unfold updateTemplate at hr htk ⊢
+      simp only [hos] at hr htk ⊢
+      simp only [accept, hcos]
+      generalize hnid : (if newId ≠ "" then newId else id) = nid at hr htk ⊢
+      generalize (if script ≠ "" then script else os) = ns at hr htk ⊢
+      have hnid0 : nid ≠ "" := by
+        rw [← hnid]; split
+        · assumption
+        · exact hid
+      by_cases h1 : (!(env ns).tmplOk) = true
+      · rw [if_pos h1] at hr; cases hr
+      rw [if_neg h1] at hr htk ⊢
+      by_cases h2 : (!(storeTemplate w id nid ns).2) = true
+      · rw [if_pos h2] at hr; cases hr
+      rw [if_neg h2] at hr htk ⊢
+      by_cases h3 : (!(env os).parse || !(env ns).parse) = true
+      · rw [if_pos h3] at hr; cases hr
+      rw [if_neg h3] at hr htk ⊢
+      simp only [note_store] at htk
+      have hall : (updateAll env fail id os nid ns (storeTemplate w id nid ns).1 [] (listAssoc w.store id)).2 = true := by
+        cases hu : (updateAll env fail id os nid ns (storeTemplate w id nid ns).1 [] (listAssoc w.store id)).2
+        · rw [hu] at hr; simp at hr
+        · rfl
+      have hst := storeTemplate_te w id nid ns
+      have hmem : ∀ i t, w.store.tasks i = some t → (i ∈ listAssoc w.store id ↔ t.tmpl = id) := by
+        intro i t ht
+        rw [mem_listAssoc]
+        constructor
+        · rintro ⟨_, ha⟩
+          obtain ⟨_, t', ht', htm⟩ := (h.assoc id i).mp ha
+          rw [view_tasks, ht] at ht'; cases ht'; exact htm
+        · intro htm
+          exact ⟨hdom i t ht, (h.assoc id i).mpr ⟨hid, t, ht, htm⟩⟩
+      have hmem0 : ∀ i, w.store.tasks i = none → i ∉ listAssoc w.store id := by
+        intro i hn hi
+        obtain ⟨_, ha⟩ := (mem_listAssoc _ _ _).mp hi
+        obtain ⟨_, t', ht', _⟩ := (h.assoc id i).mp ha
+        rw [view_tasks, hn] at ht'; cases ht'
+      have hsome : ∀ k ∈ listAssoc w.store id, ((storeTemplate w id nid ns).1.store.tasks k).isSome = true := by
+        intro k hk
+        rw [hst.1]
+        cases hx : w.store.tasks k
+        · exact absurd hk (hmem0 k hx)
+        · rfl
+      obtain ⟨e1, e2, e3, e4⟩ := updateAll_view env fail id os nid ns _ [] _ hall hsome
+      rw [hst.1] at e3 e4
+      rw [hst.2] at e3
+      -- the template store
+      have hsv := storeTemplate_view w id nid ns
+      have hso := storeTemplate_ok w id nid ns
+      have hsok : (storeTemplate w id nid ns).2 = true := by simpa using h2
+      rw [hsok] at hso
+      have hW1t : (storeTemplate w id nid ns).1.store.tmpls =
+          fun i => if i = nid then some ns else if i = id then none else w.store.tmpls i := by
+        have := congrArg View.tmpls hsv
+        rw [view_tmpls] at this; rw [this]
+        by_cases hne : id = nid
+        · subst hne; simp [hos, View.putTmpl]; funext i; grind
+        · have hn : (w.store.tmpls nid).isSome = false := by simpa [hne] using hso.symm
+          simp [hne, hn, View.putTmpl, View.delTmpl]; funext i; grind
+      have hW1a : ∀ m j, (storeTemplate w id nid ns).1.store.assoc m j =
+          if id ≠ nid ∧ m = id then false else w.store.assoc m j := by
+        intro m j
+        have := congrArg View.assoc hsv
+        rw [view_assoc] at this; rw [this]
+        by_cases hne : id = nid
+        · subst hne; simp [hos, View.putTmpl]
+        · have hn : (w.store.tmpls nid).isSome = false := by simpa [hne] using hso.symm
+          simp [hne, hn, View.putTmpl, View.delTmpl]
+      refine ⟨fun m j => ?_, ?_, ?_, fun i => ?_⟩
+      · -- association table
+        simp only [note_view, view_assoc, view_tasks]
+        rw [e2, hW1a, htk]
+        have ha := h.assoc m j
+        have ha2 := h.assoc id j
+        simp only [view_assoc, view_tasks] at ha ha2
+        cases htj : w.store.tasks j with
+        | none =>
+          have := hmem0 j htj
+          rw [htj] at ha ha2
+          simp only [this, and_false, if_false]
+          grind
+        | some t =>
+          have hm := hmem j t htj
+          rw [htj] at ha ha2
+          simp only []
+          by_cases htm : t.tmpl = id
+          · have hin := hm.mpr htm
+            simp only [htm, if_true, hin, and_true]
+            have : (resync env os nid ns t).tmpl = nid := rfl
+            grind
+          · have hin : j ∉ listAssoc w.store id := fun hh => htm (hm.mp hh)
+            simp only [htm, if_false, hin, and_false]
+            grind
+      · -- tasks
+        simp only [note_view, view_tasks, htk, htasks]
+        funext i; cases c.tasks i <;> rfl
+      · -- templates
+        simp only [note_view, view_tmpls]
+        rw [e1, hW1t, htmpls]
+      · -- executing set
+        simp only [note_view, view_exec]
+        rw [e3]
+        have hex := h.exec i
+        simp only [view_exec, Cat.executing] at hex
+        rw [← htasks] at hex
+        simp only [Cat.executing]
+        rw [← htasks]
+        cases hti : w.store.tasks i with
+        | none =>
+          have := hmem0 i hti
+          rw [hti] at hex
+          simp [this, hex]
+        | some t =>
+          have hm := hmem i t hti
+          rw [hti] at hex
+          simp only []
+          by_cases htm : t.tmpl = id
+          · have hin := hm.mpr htm
+            have hen : (resync env os nid ns t).enabled = t.enabled := rfl
+            cases he : t.enabled
+            · simp [htm, hin, he, hen, hex]
+            · have := e4 i hin t hti he
+              rw [retarget_eq_resync] at this
+              simp [htm, hin, he, hen, this]
+          · have hin : i ∉ listAssoc w.store id := fun hh => htm (hm.mp hh)
+            simp [htm, hin, hex]
+
+/-! ### whole histories, every kind of request -/
+
+/-- One step without any recorded deviation: no crash point, no refused start on a create / update, no delete of a
+template that tasks were created from, no template update answered 500 (and template IDs are non-empty). -/
+structure StepFree (env : Env) (c : Cat) (r : Req) (resp : Resp) : Prop where
+  cut : r.cut = none
+  nodev : devStartFail env r.fail c r.op resp = false
+  noorphan : ∀ id, r.op = .tdelete id → ∀ i t, c.tasks i = some t → t.tmpl ≠ id
+  tup : ∀ id n s, r.op = .tupdate id n s → id ≠ "" ∧ resp ≠ .fail
+
+theorem refine_step_full (env : Env) (w : World) (c : Cat) (r : Req) (h : RInv w c)
+    (hs : StepFree env c r (step Variant.fixed env r.fail r.cut w r.op).2) :
+    RInv (step Variant.fixed env r.fail r.cut w r.op).1
+      (specStep env r.fail c r.op (step Variant.fixed env r.fail r.cut w r.op).2) := by
+  obtain ⟨hcut, hnodev, hno, htup⟩ := hs
+  refine ⟨?_, ?_, step_inv Variant.fixed env r.fail r.cut w r.op h.ei⟩
+  · rw [hcut] at hnodev htup ⊢
+    simp only [step] at hnodev htup ⊢
+    have hd : DInv (beginReq w none).view c := h.d
+    have hei : ExecInv (beginReq w none) := h.ei
+    have hdom : WDom (beginReq w none) := h.dom
+    generalize beginReq w none = w0 at hd hei hdom hnodev htup ⊢
+    cases hop : r.op with
+    | create id q =>
+      rw [hop] at hnodev
+      simp only [handle] at hnodev ⊢
+      exact createTask_refines env r.fail w0 c id q hei hd hnodev
+    | update id q =>
+      rw [hop] at hnodev
+      simp only [handle] at hnodev ⊢
+      exact updateTask_refines env r.fail w0 c id q hd hnodev
+    | delete id =>
+      simp only [handle, specStep, deleteTask_ok, if_true]
+      exact deleteTask_refines env r.fail w0 c id hei hd
+    | tcreate id s =>
+      simp only [handle]
+      exact createTemplate_refines env r.fail w0 c id s hd
+    | tupdate id n s =>
+      have := htup id n s hop
+      rw [hop] at this
+      simp only [handle] at this ⊢
+      exact updateTemplate_refines env r.fail w0 c id n s hd hdom this.1 this.2
+    | tdelete id =>
+      have hacc : specStep env r.fail c (.tdelete id) (handle Variant.fixed env r.fail w0 (.tdelete id)).2 =
+          accept env r.fail c (.tdelete id) := by
+        unfold specStep; exact if_pos rfl
+      rw [hacc]
+      exact deleteTemplate_refines env r.fail w0 c id hd (hno id hop)
+    | restart =>
+      simp only [handle, specStep, if_true]
+      exact restart_refines env r.fail w0 c hdom hd
+  · rw [hcut]
+    simp only [step]
+    exact WDom.handle (w := beginReq w none) h.dom Variant.fixed env r.fail r.op
+
+/-- Every step of the history is free of recorded deviations. -/
+def AllFree (env : Env) : List Req → World × Cat → Prop
+  | [], _ => True
+  | r :: rest, (w, c) =>
+    StepFree env c r (step Variant.fixed env r.fail r.cut w r.op).2 ∧
+    AllFree env rest ((step Variant.fixed env r.fail r.cut w r.op).1,
+      specStep env r.fail c r.op (step Variant.fixed env r.fail r.cut w r.op).2)
+
+theorem refine_history_full (env : Env) (reqs : List Req) (w : World) (c : Cat) (h : RInv w c)
+    (hok : AllFree env reqs (w, c)) :
+    RInv (runBoth env reqs (w, c)).1 (runBoth env reqs (w, c)).2 := by
+  induction reqs generalizing w c with
+  | nil => exact h
+  | cons r rest ih =>
+    obtain ⟨hs, hrest⟩ := hok
+    exact ih _ _ (refine_step_full env w c r h hs) hrest
+
 end Kap.C14
